@@ -120,6 +120,10 @@ def outcome_rules(run, F, E):
                 break
         run.ob('C09.a', 'PlanT::clear removes every task and clears both status bits of all %s states' % n_states, ok, where=fn.pat,
                detail=None if ok else {k: sorted(map(repr, v)) for k, v in cleared.items()}, key='PlanT::clear leaves tasks or status bits behind')
+    clear_tasks(run, F, E)
+
+
+def clear_tasks(run, F, E, rule='C09.a'):
     for fn in F.find('PlanT', 'clearTasks'):
         c = cfgmod.cfg_of(fn)
         # by resolved callee, write paths and dominance -- not by the names of locals or by how the bounds are reached
@@ -144,7 +148,7 @@ def outcome_rules(run, F, E):
                             if d.e.get('id') == src.get('id') and c.dominates(d, rm[0]) and d.e.get('init') is not None and \
                                     any(x['k'] == 'mem' and x.get('f') == 'next' for x in ir.walk(d.e['init'])):
                                 ok = True
-        run.ob('C09.a', 'PlanT::clearTasks removes every linked task (successor read before removal) and resets the bounds', ok, where=fn.pat,
+        run.ob(rule, 'PlanT::clearTasks removes every linked task (successor read before removal) and resets the bounds', ok, where=fn.pat,
                key='PlanT::clearTasks does not empty the list')
 
 
@@ -250,6 +254,10 @@ def run(run):
             run.guard('plan exists', plan_exists, run, F, E)
             run.guard('reset completeness', reset_completeness, run, F, E, 'C09.f')
             run.guard('status reports', c08.status_reports, run, F, E, 'C09.g')
+            # a report does not outlive the activity of the state that made it: leaving a state clears both of its status bits, whether or
+            # not a plan exists at that moment (shares C08.e)
+            run.guard('exit clears', c08.exit_clears, run, F, E)
+            run.relabel('C08.e', 'C09.h')
             run.guard('cycle status reset', cycle_status_reset, run, F, E)
             run.guard('status rules', c08.status_rules, run, F, E)
             run.guard('definite init', records.definite_init, run, 'C09.c', F)
